@@ -221,7 +221,7 @@ pub fn run_property(prop: &str) {
     let min_bound = run.pick(3usize, 5usize);
     let bound = run.pick(6usize, 12usize);
     let cap_total = run.pick(400_000usize, 6_000_000usize);
-    let time_cap_s = run.pick(40.0, 600.0);
+    let time_cap_s = run.pick(28.0, 600.0);
     let workers = vcommon::ncpu();
 
     // sibling engines (other runtime feature sets) run concurrently with this one
